@@ -218,10 +218,10 @@ pub fn c26_case(src: &mut Src, obs: &mut Obs) -> CaseResult {
         let e = &ifs[s.iface];
         let m = &e.methods[s.method];
         let rs = sv.replies_to(s.msg.serial);
-        // With the no-reply flag the specification lets a server still send the reply ("the only
-        // harm is extra traffic"), and the statement exempts that case from "exactly once": none or
-        // one, and the one must be the right one. A successful call must stay unanswered.
-        let ok_n = if s.noreply { rs.len() <= 1 && !(s.kind == Kind::Valid && rs.len() == 1 && rs[0].mtype == msg::T_RETURN) } else { rs.len() == 1 };
+        // exactly one reply — none of any kind when the call says it expects none (the statement's
+        // "(unless no reply is expected)"; routing errors included since the repair recorded in
+        // known-findings.txt)
+        let ok_n = if s.noreply { rs.is_empty() } else { rs.len() == 1 };
         if !ok_n {
             return Err(Failure::new(format!("{} replies instead of {}: {:?}; {}", rs.len(), if s.noreply { "none" } else { "one" }, rs.iter().map(|r| show_msg(r)).collect::<Vec<_>>(), describe(i))));
         }
